@@ -6,7 +6,7 @@ P=$(readlink -f "$1"); ID=$2; TIER=${3:-quick}
 WT=/tmp/wt/mt_$$_$RANDOM
 git -C /repo worktree add -q --detach "$WT" HEAD || exit 9
 trap 'git -C /repo worktree remove --force "$WT" >/dev/null 2>&1' EXIT INT TERM
-( cd "$WT" && git apply "$P" ) || { echo "patch does not apply"; exit 9; }
+( cd "$WT" && { git apply "$P" 2>/dev/null || git apply -C1 --recount "$P" 2>/dev/null || patch -p1 -s -F3 --binary < "$P"; } ) || { echo "patch does not apply"; exit 9; }
 cd /verif
 SYMX_REPO="$WT" timeout ${TIMEOUT:-1500} python3 bin/check.py "$ID" --tier "$TIER" 2>&1 | grep -v "^\*\*\*\|^Numba\|^\. \|^$\|^https" | tail -${TAIL:-8}
 rc=${PIPESTATUS[0]}
